@@ -28,8 +28,6 @@ Ltac enterx f cf :=
   rewrite callx_S; cbn [nth_error cprog f cf fn_nparams fn_nlocals fn_body length Nat.eqb Nat.sub repeat app].
 
 Notation G_unknown := G_lit_756e6b6e6f776e_7.
-Notation G_msg_unknown := G_lit_756e6b6e6f776e20636f6d6d616e64_15.
-Notation G_msg_long := G_lit_636f6d6d616e6420746f6f206c6f6e67_16.
 Definition unknown_s : bytes := [117; 110; 107; 110; 111; 119; 110]%N.
 
 Lemma x_ex_txt_none : nth_error cprog X_ex_txt = None. Proof. vm_compute. reflexivity. Qed.
@@ -84,6 +82,13 @@ Proof. intro H. eapply Forall_impl; [|exact H]. intros c [H0 H1]. unfold byte_ok
 Definition ex_while : stmt := match fn_body cf_ex_exec with SSeq _ (SSeq _ (SSeq _ (SSeq w _))) => w | _ => SSkip end.
 Definition exec_guard : stmt := match fn_body cf_ex_exec with SSeq _ (SSeq _ (SSeq g _)) => g | _ => SSkip end.
 Definition exec_frame : stmt := match fn_body cf_ex_exec with SSeq f _ => f | _ => SSkip end.
+(* the messages are whatever string literals the C text passes to ex_show (a reworded message does not disturb the proofs) *)
+Definition G_msg_long : nat := match exec_guard with SIf _ (SSeq (SExpr (ECall _ [EGlob g])) _) _ => g | _ => O end.
+Definition G_msg_unknown : nat :=
+  match ex_while with
+  | SWhile _ (SSeq _ (SSeq _ (SSeq _ (SSeq _ (SSeq _ (SSeq _ (SSeq (SIf _ _ (SExpr (ECall _ [EGlob g]))) _))))))) => g
+  | _ => O
+  end.
 Lemma ex_exec_shape : fn_body cf_ex_exec =
   SSeq exec_frame (SSeq (SExpr (ESetLocal 4 (EConst 0))) (SSeq exec_guard (SSeq ex_while (SReturn (Some (ELocal 4)))))).
 Proof. reflexivity. Qed.
@@ -294,7 +299,9 @@ Section Exec.
         - destruct (Z.leb_spec 0 (Z.of_nat k)); [|lia]. destruct X2 as [X2 _]. rewrite Hld.
           replace (0 + 3 * Z.of_nat k + 1 * 2) with (Z.of_nat (3 * k + 2)) by lia.
           destruct Hvt as [->|(b & o & ->)]; xstep; unfold call at 1; rewrite callx_S, x_indirect_none, X2; xstep; reflexivity.
-        - change (0 <=? -1) with false. cbv iota. destruct X2 as [X2 ->]. unfold call at 1. rewrite callx_S, x_ex_show_none, X2. reflexivity. }
+        - change (0 <=? -1) with false. cbv iota. destruct X2 as [X2 ->]. unfold call at 1. rewrite callx_S, x_ex_show_none.
+          match goal with |- context [ext X_ex_show ?a ?mm] => change (ext X_ex_show a mm) with (ext X_ex_show [VPtr G_msg_unknown 0] mm) end.
+          rewrite X2. reflexivity. }
       rewrite Hdisp. clear Hdisp. xstep. rewrite Hld'.
       destruct (IH (VPtr bt 0) (VInt (idx_res (CapDefs.ex_idx cmd))) fl ltac:(lia)) as (v5' & v6' & IH').
       unfold ex_while in IH'; cbn [fn_body cf_ex_exec] in IH'.
@@ -364,7 +371,9 @@ Proof.
   change 0 with (Z.of_nat 0). rewrite (builtin_strlen (exec_mem m) bs s 0 Hs' Hn) by lia. xstep.
   rewrite Nat.sub_0_r. rewrite wrap_U64_id by lia. change (wrap U64 512) with 512. change EXLEN with 512 in Hlen.
   destruct (Z.leb_spec 512 (Z.of_nat (length s))); [|lia]. xstep.
-  rewrite callx_S, x_ex_show_none, Hx. xstep. reflexivity.
+  rewrite callx_S, x_ex_show_none.
+  match goal with |- context [ext X_ex_show ?a ?mm] => change (ext X_ex_show a mm) with (ext X_ex_show [VPtr G_msg_long 0] mm) end.
+  rewrite Hx. xstep. reflexivity.
 Qed.
 
 (* a line shorter than EXLEN: the run the model prescribes *)
@@ -492,9 +501,11 @@ Proof.
 Qed.
 
 (* the seventeenth level: the message, 1, then lbuf_modified(xb) as always *)
+Definition G_msg_deep : nat :=
+  match fn_body cf_ex_command with SSeq _ (SSeq (SIf _ _ (SExpr (ECall _ [EGlob g]))) _) => g | _ => O end.
 Theorem tr_ex_command_deep ext m v dep u m1 gbufs bl blk lb d fuel :
   nth_error m G_depth = Some [VInt dep] -> 16 <= dep -> i32 dep ->
-  ext X_ex_show [VPtr G_lit_636f6d6d616e64206e657374696e6720746f6f20_24 0] m = Ok (u, m1) ->
+  ext X_ex_show [VPtr G_msg_deep 0] m = Ok (u, m1) ->
   nth_error m1 G_bufs = Some gbufs -> nth_error gbufs BUFS_LB = Some (VPtr bl 0) ->
   lbuf_rep m1 bl blk lb -> lbuf_ints lb -> UndoDefs.useq lb < 2147483647 ->
   callx ext cprog fuel (S (S (S d))) F_ex_command [v] m
@@ -504,7 +515,9 @@ Proof.
   enterx F_ex_command cf_ex_command. xstep.
   rewrite (fld_load m G_depth [VInt dep] 0 _ _ Hd eq_refl) by reflexivity. xstep.
   rewrite wrap_I32_id by exact Hi. destruct (Z.ltb_spec dep 16); [lia|]. xstep.
-  rewrite callx_S, x_ex_show_none, Hx. xstep.
+  rewrite callx_S, x_ex_show_none.
+  match goal with |- context [ext X_ex_show ?a ?mm] => change (ext X_ex_show a mm) with (ext X_ex_show [VPtr G_msg_deep 0] mm) end.
+  rewrite Hx. xstep.
   rewrite (callx_mono ext cprog fuel (S (S d)) F_ex_lbuf _ _ _ (tr_ex_lbuf m1 gbufs bl (S d) fuel Hb Hlb)). xstep.
   rewrite (callx_mono ext cprog fuel (S (S d)) F_lbuf_modified _ _ _ (proj1 (tr_lbuf_modified m1 bl blk lb d fuel R Hints Hmax))). xstep. reflexivity.
 Qed.
